@@ -132,9 +132,11 @@ def pyEqScalarVal (a : Scalar F) (b : Val F) : Bool :=
 def counter (x : Ctx F) (input : String) (countValue : Scalar F) : PyM (Val F) := do
   let reading ← x.reading input
   let prev ← x.prevReading x.name
-  let count : Num F ← if prev.truthy then prev.asNum else pure (.int 0)
-  if reading.isNone then return .num count
-  if pyEqScalarVal countValue reading then return .num (count.add (.int 1))
+  let count : Val F := if prev.truthy then prev else .int 0
+  if reading.isNone then return count
+  if pyEqScalarVal countValue reading then
+    let n ← count.asNum
+    return .num (n.add (.int 1))
   return .int 0
 
 end Calc
